@@ -133,7 +133,7 @@ class DistributedNetwork(BaseManager):
             * level = level parent advertised + 1
             * root = whatever our parent sent us initially
         """
-        username = self._session.user.name  # type: ignore[union-attr]
+        username = self._get_own_username()
         if self.parent:
             # We are the branch root
             if self.parent.branch_root == username:
@@ -142,6 +142,17 @@ class DistributedNetwork(BaseManager):
                 return self.parent.branch_root, self.parent.branch_level + 1  # type: ignore
 
         return username, 0
+
+    def _get_own_username(self) -> str:
+        """Returns the username used in the advertised branch values. The tree
+        outlives the session (the server connection can be lost while the
+        distributed connections stay open), in that case the username from the
+        credentials is used
+        """
+        if self._session:
+            return self._session.user.name
+
+        return self._settings.credentials.username
 
     def get_distributed_peer(self, connection: PeerConnection) -> Optional[DistributedPeer]:
         """Get the distributed peer object related to the given connection.
@@ -233,11 +244,7 @@ class DistributedNetwork(BaseManager):
 
         self.parent = None
 
-        if not self._session:
-            logger.warning("not advertising branch levels : session is destroyed")
-            return
-
-        username = self._session.user.name
+        username = self._get_own_username()
         await self._notify_server_of_parent()
 
         # TODO: What happens to the children when we lose our parent is still
@@ -251,6 +258,11 @@ class DistributedNetwork(BaseManager):
         """Notifies the server of our parent or if we don't have any, notify the
         server that we are looking for one
         """
+        if not self._session:
+            # The values get advertised when the session is initialized
+            logger.warning("not advertising branch levels to server : session is destroyed")
+            return
+
         root, level = self._get_advertised_branch_values()
         logger.info("notifying server of our parent : level=%d root=%s", level, root)
 
